@@ -257,9 +257,8 @@ func lexgenspecRun(c *Ctx) {
 	}
 	for i := 0; i < c.N; i++ {
 		o := LGenOpts{MaxModes: 3, MaxRules: 4, Depth: 1, Small: c.Rng.Chance(2, 3)}
-		if c.Tier == "thorough" {
-			o = LGenOpts{MaxModes: 3, MaxRules: 7, Depth: 2, Small: c.Rng.Chance(1, 2)}
-		}
+		// the thorough tier runs MORE specifications of the same size, not larger ones: the list-based subset construction of the
+		// Lean model needs minutes for a seven-rule mode over nested classes
 		var s *LSpec
 		switch c.Rng.Intn(8) {
 		case 0:
